@@ -21,6 +21,9 @@ Inductive case :=
 | CUnmarshal (vers : N) (std_ok : bool) (data : bytes) (o : option gotype)
 (* decompressCert on a client that advertised adv: refused before the buffer was allocated (reader opened or not), or went on *)
 | CDecomp (adv : list N) (alg ulen : N) (open_ok : bool) (refused : bool)
+(* a live TLS 1.3 handshake whose (decompressed or plain) Certificate message parsed and carried ncerts entries: the client
+   returned "received empty certificates message" (empty_err), or completed *)
+| CCertChecks (from_compressed : bool) (ncerts : N) (empty_err completed : bool)
 (* live HelloRetryRequest with a cookie against a spec with n extensions and no cookie extension: the second ClientHello had
    n2 extensions with the cookie at index pos *)
 | CCookiePos (n n2 : N) (pos : Z).
@@ -46,6 +49,11 @@ Definition check (c : case) : bool :=
       match decompress_alloc true adv alg ulen open_ok with
       | Err _ => refused
       | Ok k => negb refused && (k =? ulen + 4) && (k <=? maxHandshakeCertificateMsg + 4)
+      | Panic _ => false end
+  | CCertChecks fc ncerts empty_err completed =>
+      match cert_checks fc (N.to_nat ncerts) with
+      | Err a => empty_err && negb completed && (a =? a_decode_error)
+      | Ok _ => negb empty_err
       | Panic _ => false end
   | CCookiePos n n2 pos =>
       (* some random draw makes insert_cookie put the cookie there; the list grows by one *)
